@@ -238,6 +238,16 @@ Definition ssh_connect (c : ssh_cfg) (o : ssh_oracle) : trace * result :=
             (StartClient :: t1 ++ t2 ++ t3, r)
   end.
 
+(* ------------------------------------------------------------------ SSH: several sessions of one process
+   ssh.py l.88 (a new SSHSession starts from an empty paramiko.HostKeys) and l.113-133 / l.249-254
+   (load_known_hosts parses the file when connect() is called): the known_hosts table a connect judges the
+   presented key against is the content of the file AT THE TIME OF THAT connect.  In a history of connects
+   the i-th configuration therefore carries, in [c_known_hosts], the file content of that moment, and the
+   history is the pointwise image of [ssh_connect]: no trust (and no distrust) is carried from an earlier
+   session to a later one, however the file was changed in between. *)
+Definition ssh_history (l : list (ssh_cfg * ssh_oracle)) : list (trace * result) :=
+  map (fun co => ssh_connect (fst co) (snd co)) l.
+
 (* ------------------------------------------------------------------ TLS *)
 Inductive load_res := LOk | LSSLError | LIOError.
 
